@@ -51,6 +51,9 @@ def make_case(idx):
     elif variant == 'junk':
         # an operator followed by a key that is not a motion is no command at all; the change before it stays the one '.' repeats
         junk = R.choice(['dx', 'cJ\x1b', 'dp', '2dx', '"adP', 'yx', '>x', 'd~', 'dX', 'cD\x1b', 'g~x', 'dJ', '<p'])
+        if R.random() < 0.5:
+            # commands that succeed without being a change (undo, yanks, marks, status, a filter or search prompt that is given up) do not take its place either
+            junk = R.choice(['u', 'u', 'u\x12', '!!\x1b', '!j\x1b', '!!\x03', 'ma', '\x07', 'gd', ':\x1b', '/\x1b', '\x0c', 'zz', ':ec hi\n'])      # (yanks are not in the list: neatvi records them for '.', Appendix A)
         pass
     # right after the first c register '.' is copied to a file (through a pipe and back): c counts as a change only if it holds exactly c's keys
     c1 = c + '\x1b:rx . tee dot1\n'
